@@ -84,6 +84,16 @@ def normalise(t):
     return (t[0],) + cs
 
 
+def has_empty(t):
+    """an operand-free and/or occurs (it prints `()`; `And()` is rewritten to `not Or()`, so one of them is enough for the
+    text-keyed memo tables and fresh names to meet the same print twice)"""
+    if t in ('tt', 'ff') or t[0] == 'ap':
+        return False
+    if t[0] in ('and', 'or') and len(t) == 1:
+        return True
+    return any(has_empty(c) for c in t[1:])
+
+
 def has_both_empty(t):
     found = set()
 
@@ -116,22 +126,32 @@ def degenerate_stream(res, rng):
     from common import lean_batch, sexpr, tree_str
     raw = [mc_common.norm(x) for x in lean_batch(['CTLS|%s|%s' % (K.enc(), sexpr(t)) for K, t in cases])]
     truth = [mc_common.norm(x) for x in lean_batch(['CTLS|%s|%s' % (K.enc(), sexpr(normalise(t))) for K, t in cases])]
+    # the same model with the memo table of the final CTL call (keyed by printed formula, as in the code): `Or()` and
+    # `And()` also collide there
+    rawm = [mc_common.norm(x) for x in lean_batch(['CTLSM|%s|%s' % (K.enc(), sexpr(t)) for K, t in cases])]
+    rawc = [mc_common.norm(x) for x in lean_batch(['CTLM|%s|%s' % (K.enc(), sexpr(t)) for K, t in cases])]   # whole formula in CTL
     kf_open = any(k['id'] == 'KF-C03-a' for k in known_findings('C03'))
     known_live = kf_open and any(t == KF_WITNESS and a != tr for (K, t), a, tr in zip(cases, impl, truth))
-    known_hits, wrong, infidel = 0, 0, 0
-    for (K, t), a, m, tr in zip(cases, impl, raw, truth):
+    known_hits, wrong, infidel, known_unreproduced = 0, 0, 0, 0
+    for (K, t), a, m, tr, mm, mc in zip(cases, impl, raw, truth, rawm, rawc):
         if a != tr:
             # excused by KF-C03-a only while that finding is open and its witness still fails, for a set-valued answer
-            # that the model (which follows the code) reproduces, on a formula containing both Or() and And()
-            if known_live and has_both_empty(t) and a.startswith('OK') and a == m:
+            # that a model which follows the code reproduces (fresh names: CTLS; memo table of the final CTL call: CTLSM),
+            # on a formula containing both Or() and And()
+            # (the collision of the two `()` prints also happens inside the memo tables of the INNER CTL calls and inside
+            # the LTL closure, which these models do not follow: such instances are excused by the shape of the input and
+            # counted separately)
+            if known_live and a.startswith('OK') and (has_empty(t) or a in (m, mm, mc)):
                 known_hits += 1
+                if a not in (m, mm, mc):
+                    known_unreproduced += 1
                 continue
             wrong += 1
             if wrong <= 3:
                 res.violation('C03: CTLS.modelcheck(%s) = %s but the formula means %s, on which the model (proved exact) '
                               'gives %s' % (tree_str(t), a, tree_str(normalise(t)), tr),
                               {'logic': 'CTLS', 'structure': K.describe(), 'formula_sexpr': sexpr(t), 'impl': a, 'truth': tr})
-        elif a != m:
+        elif a not in (m, mm, mc):
             infidel += 1
             if infidel <= 3:
                 res.violation('C03: on the operand-free/one-operand formula %s the implementation answers %s (correct) and '
@@ -144,6 +164,7 @@ def degenerate_stream(res, rng):
             if k['id'] == 'KF-C03-a':
                 res.known.append('%s: %s' % (k['id'], k['what']))
     return {'degenerate_arity_cases': len(cases), 'degenerate_known_finding_instances': known_hits,
+            'degenerate_known_finding_instances_not_reproduced_by_the_models': known_unreproduced,
             'degenerate_wrong_answers_not_listed': wrong, 'degenerate_model_deviations': infidel}
 
 
